@@ -36,6 +36,17 @@ ObjA == MkObj(<<JMem(<<97>>, JInt(1))>>)
 Classes == <<JNull, JTrue, JInt(1), JStr(<<97>>), JArr(<<>>), JArr(<<JInt(1), JInt(2)>>), JArr(<<JStr(<<97>>), JStr(<<98>>)>>),
              JArr(<<JInt(1), JStr(<<97>>)>>), ObjA, JExpref(AIdentity)>>
 ClassSet == {Classes[i] : i \in DOMAIN Classes}
+(* two calls on the same array node (arrays of 16 and 17 elements among them): the second call must decide on its own *)
+Long(x(_), n) == JArr([i \in 1..n |-> x(i)])
+PairArrs == <<Long(LAMBDA i : JStr(<<96 + (i % 5) + 1>>), 16), Long(LAMBDA i : JInt((i * 7) % 5), 16), Long(LAMBDA i : JStr(<<97>>), 17),
+              Long(LAMBDA i : IF i = 17 THEN JStr(<<97>>) ELSE JInt(i), 17), Long(LAMBDA i : JInt(i), 3), Long(LAMBDA i : JStr(<<96 + i>>), 2)>>
+PairFns == <<"max", "min", "sort", "sum", "avg", "length", "reverse", "to_array">>
+PairText(f, g) == <<cLBRACKET>> \o NameCps(f) \o <<cLPAREN, 97, cRPAREN, cCOMMA>> \o NameCps(g) \o <<cLPAREN, 97, cRPAREN, cRBRACKET>>
+PairCases(tag) ==
+  LET cells == SetToSeq({<<f, g, x>> : f \in DOMAIN PairFns, g \in DOMAIN PairFns, x \in DOMAIN PairArrs})
+  IN [i \in DOMAIN cells |-> [e |-> tag, text |-> PairText(PairFns[cells[i][1]], PairFns[cells[i][2]]),
+                               doc |-> MkObj(<<JMem(<<97>>, PairArrs[cells[i][3]])>>)]]
+
 Unknown == <<110, 111, 115, 117, 99, 104>>          \* "nosuch"
 Arities(f) == 0..(IF Len(Sig(f).ps) + 2 > MAXAR THEN MAXAR ELSE Len(Sig(f).ps) + 2)
 SigCases(zzdummy) ==
@@ -46,7 +57,15 @@ SigCases(zzdummy) ==
       elems == {JNull, JTrue, JInt(1), JStr(<<97>>), JArr(<<>>), ObjA}
       byArrs == SetToSeq({JArr(xs) : xs \in UNION {[1..n -> elems] : n \in 1..2}})
       byFns == <<"sort_by", "max_by", "min_by">>
+      \* runtimes of the caller's own: with nothing registered every built-in name is unknown; with the built-ins registered
+      \* a fresh runtime decides like the default one
+      oneArg == <<JInt(1), JStr(<<97>>), JArr(<<JInt(1), JInt(2)>>), ObjA>>
+      own == [x \in 1..(Len(FnNames) * 4) |-> [f |-> FnNames[((x - 1) \div 4) + 1], a |-> oneArg[((x - 1) % 4) + 1]]]
   IN [i \in DOMAIN ok |-> Case("sig", NameCps(ok[i][1]), ok[i][2], IOEnv.VIA)]
+     \o [i \in DOMAIN own |-> [e |-> "sig", text |-> CallText(NameCps(own[i].f), <<own[i].a>>, IOEnv.VIA), doc |-> DocOf(<<own[i].a>>, IOEnv.VIA), rt |-> "empty"]]
+     \o [i \in DOMAIN own |-> [e |-> "sig", text |-> CallText(NameCps(own[i].f), <<own[i].a>>, IOEnv.VIA), doc |-> DocOf(<<own[i].a>>, IOEnv.VIA), rt |-> "fresh"]]
+     \o [i \in DOMAIN FnNames |-> [e |-> "sig", text |-> CallText(NameCps(FnNames[i]), <<>>, IOEnv.VIA), doc |-> DocOf(<<>>, IOEnv.VIA), rt |-> "empty"]]
+     \o PairCases("sig")
      \o [i \in DOMAIN unk |-> Case("sig", Unknown, unk[i], IOEnv.VIA)]
      \o [x \in 1..(Len(byArrs) * 3) |-> Case("sig", NameCps(byFns[((x - 1) % 3) + 1]), <<byArrs[((x - 1) \div 3) + 1], JExpref(AIdentity)>>, IOEnv.VIA)]
      \o [x \in 1..Len(byArrs) |-> Case("sig", NameCps("map"), <<JExpref(AIdentity), byArrs[x]>>, IOEnv.VIA)]
@@ -94,6 +113,27 @@ ToNumStrs == {JStr(<<49>>), JStr(<<49, 46, 53>>), JStr(<<45, 50>>), JStr(<<32, 4
               JStr(<<48, 49>>), JStr(<<49, 46>>), JStr(<<46, 53>>), JStr(<<123, 125>>), JStr(<<45>>), JStr(<<48>>), JStr(<<45, 48>>)}
 AnyVals == Mixed \cup {JNum(3, 2), JInt(-1), JArr(<<JInt(1), JStr(<<97>>), JNull>>)}
 
+(* neighbouring doubles (JValue.tla): distinct numbers that the tolerant '==' identifies; ordering tells them apart *)
+NearNums == {JInt(1), JNear(1, 1, 1), JNear(1, 1, 2), JNear(1, 1, 3), JNear(1, 1, -1), JNum(3, 10), JNear(3, 10, 1), JNear(3, 10, 2),
+             JNear(-3, 10, 1), JNear(-3, 10, -1), JNear(-1, 1, 1), JNear(-1, 1, -1), JNear(2, 1, -1)}
+Cluster == <<JInt(1), JNear(1, 1, 1), JNear(1, 1, 2), JNear(1, 1, 3), JNear(3, 10, 1)>>
+ClusterSet == {Cluster[i] : i \in DOMAIN Cluster}
+NearArrs == {JArr(s) : s \in Seqs(ClusterSet, 3)}
+NearRecArrs == {JArr([i \in DOMAIN ks |-> Rec(ks[i], i)]) : ks \in Seqs(ClusterSet \ {JNear(3, 10, 1)}, 3)}
+(* long arrays over a cluster of four neighbours (the sizes at which the standard sort changes algorithm) *)
+NearFam(n, a) ==
+  LET key(i) == CASE a = 1 -> Cluster[(i % 4) + 1] [] a = 2 -> Cluster[((i * i + 3 * i) % 4) + 1] [] a = 3 -> Cluster[4 - ((i * 7) % 4)]
+                  [] a = 4 -> Cluster[(((i * 5) \div 3) % 4) + 1]
+  IN [i \in 1..n |-> key(i)]
+NearFamNums == {JArr(NearFam(n, a)) : n \in {20, 21, 24, 33, 64, 65}, a \in 1..4}
+NearFamRecs == {JArr([i \in 1..n |-> Rec(NearFam(n, a)[i], i)]) : n \in {21, 33, 64}, a \in 1..4}
+
+(* merge: three and four objects; a key held only by the earlier ones while a later one is the largest *)
+KeyC3 == <<99>>  KeyD == <<100>>
+Objs6 == {JObj(<<>>), ObjA, MkObj(<<JMem(<<97>>, JInt(2)), JMem(<<98>>, JNull)>>), MkObj(<<JMem(<<98>>, JStr(<<120>>))>>),
+          MkObj(<<JMem(<<98>>, JInt(7)), JMem(KeyC3, JInt(8)), JMem(KeyD, JInt(9))>>),
+          MkObj(<<JMem(<<97>>, JInt(5)), JMem(KeyC3, JInt(6)), JMem(KeyD, JNull), JMem(KeyK, JInt(0))>>)}
+
 ValCells(zzdummy) ==
   {<<f, <<x>>>> : f \in {"abs", "ceil", "floor"}, x \in MoreNums}
   \cup {<<f, <<x>>>> : f \in {"avg", "sum", "max", "min", "sort", "reverse", "length", "to_array", "to_string"}, x \in NumArrs}
@@ -105,13 +145,19 @@ ValCells(zzdummy) ==
   \cup {<<f, <<x>>>> : f \in {"keys", "values", "length", "to_string", "to_array", "type"}, x \in Objs}
   \cup {<<"merge", <<x>>>> : x \in Objs} \cup {<<"merge", <<x, y>>>> : x \in Objs, y \in Objs}
   \cup {<<"merge", <<x, y, z>>>> : x \in {ObjA}, y \in Objs, z \in Objs}
+  \cup {<<"merge", <<x, y, z>>>> : x \in Objs6, y \in Objs6, z \in Objs6}
+  \cup {<<"merge", <<x, y, z, w>>>> : x \in {ObjA, JObj(<<>>)}, y \in Objs6, z \in {ObjA, MkObj(<<JMem(<<98>>, JStr(<<120>>))>>)}, w \in Objs6}
+  \cup {<<f, <<x>>>> : f \in {"abs", "ceil", "floor", "to_number", "to_string", "type"}, x \in NearNums}
+  \cup {<<f, <<x>>>> : f \in {"avg", "sum", "max", "min", "sort", "reverse", "length"}, x \in NearArrs \cup NearFamNums}
+  \cup {<<"contains", <<x, y>>>> : x \in NearArrs, y \in ClusterSet}
+  \cup {<<f, <<x, ExprefK>>>> : f \in {"sort_by", "max_by", "min_by"}, x \in NearRecArrs \cup NearFamRecs}
   \cup {<<"not_null", s>> : s \in Seqs({JNull, JFalse, JInt(0), JStr(<<>>), JArr(<<>>)}, 3) \ {<<>>}}
   \cup {<<f, <<x>>>> : f \in {"to_number"}, x \in ToNumStrs \cup AnyVals}
   \cup {<<f, <<x>>>> : f \in {"to_string", "type", "to_array"}, x \in AnyVals}
   \cup {<<f, <<x, ExprefK>>>> : f \in {"sort_by", "max_by", "min_by"}, x \in RecArrs \cup Families}
   \cup {<<"map", <<ExprefK, x>>>> : x \in RecArrs \cup {JArr(<<JInt(1), JNull, ObjA>>)}}
 
-ValCases(zzdummy) == LET cs == SetToSeq(ValCells(0)) IN [i \in DOMAIN cs |-> VCase(cs[i][1], cs[i][2])]
+ValCases(zzdummy) == LET cs == SetToSeq(ValCells(0)) IN [i \in DOMAIN cs |-> VCase(cs[i][1], cs[i][2])] \o PairCases("val")
 
 Cases(zzdummy) == IF IOEnv.MODE = "sig" THEN SigCases(0) ELSE ValCases(0)
 ASSUME ndJsonSerialize(IOEnv.OUT, Cases(0))
